@@ -84,10 +84,14 @@ func c13Run(files map[string]string, order []string, recompile bool) map[string]
 	// first use leaves behind is observed by the repetitions at the end.
 	restorePackageState()
 	obs := map[string]string{}
+	var firstBundle *soy.Bundle
 	compile := func() (*template.Registry, error) {
 		b := soy.NewBundle().AddGlobalsMap(data.Map{"G_ONE": data.Int(1), "G.two": data.String("two"), "G_MAP": data.Map{"q": data.Int(1), "p": data.List{data.Int(2)}}})
 		for _, n := range order {
 			b = b.AddTemplateString(n, files[n])
+		}
+		if firstBundle == nil {
+			firstBundle = b
 		}
 		return b.Compile()
 	}
@@ -102,6 +106,11 @@ func c13Run(files map[string]string, order []string, recompile bool) map[string]
 			obs["again:compile"] = "error: " + err2.Error()
 		} else {
 			obs["again:compile"] = "ok"
+		}
+		if _, err3 := firstBundle.Compile(); err3 != nil {
+			obs["again3:compile"] = "error: " + err3.Error()
+		} else {
+			obs["again3:compile"] = "ok"
 		}
 		return obs
 	}
@@ -161,6 +170,13 @@ func c13Run(files map[string]string, order []string, recompile bool) map[string]
 		var buf bytes.Buffer
 		err := soyhtml.NewTofu(reg2).NewRenderer("a.main").Inject(data.Map{"inj": data.String("I")}).Execute(&buf, d)
 		obs["again2:render data0 msgs=false"] = buf.String() + errClass(err)
+	}
+	// ... and compiling the very same Bundle value once more (a server compiles one bundle to Tofu and
+	// again for the JavaScript generator): same decision.
+	if _, err := firstBundle.Compile(); err != nil {
+		obs["again3:compile"] = "error: " + err.Error()
+	} else {
+		obs["again3:compile"] = "ok"
 	}
 	return obs
 }
@@ -227,7 +243,7 @@ func checkC13(c *Ctx) {
 							return
 						}
 						for k, want := range first {
-							if _, ok := got[k]; !ok && (k == "again:compile" || strings.HasPrefix(k, "again2:")) {
+							if _, ok := got[k]; !ok && (k == "again:compile" || k == "again3:compile" || strings.HasPrefix(k, "again2:")) {
 								continue // the second compilation runs in the canonical-order executions only
 							}
 							if got[k] != want {
@@ -265,7 +281,7 @@ func checkC13(c *Ctx) {
 					}
 					// repetitions within one process
 					for k, v := range first {
-						k0 := strings.TrimPrefix(strings.TrimPrefix(k, "again:"), "again2:")
+						k0 := strings.TrimPrefix(strings.TrimPrefix(strings.TrimPrefix(k, "again:"), "again2:"), "again3:")
 						if k0 != k && first[k0] != v {
 							c.Violate("repeating the same compilation, emission or render in one process yields byte-identical results", "mismatch", "repetition:"+aspectClass(k0)+":"+sig, cs, clip(first[k0]), clip(v))
 						}
@@ -283,7 +299,7 @@ func checkC13(c *Ctx) {
 						continue
 					}
 					for k, want := range base {
-						if k == "compile" || k == "again:compile" {
+						if k == "compile" || k == "again:compile" || k == "again3:compile" {
 							continue
 						}
 						if first[k] != want {
